@@ -398,4 +398,95 @@ def parseFloat (s : Str) : FV :=
     | some v => v
     | none => parseFloatLoop input input.length
 
+/-! ### numeric literals (parser/lexer.go) -/
+
+/-- parser digitValue (lexer.go:29) -/
+def lexDigitValue (c : Nat) : Nat :=
+  if 48 ≤ c ∧ c ≤ 57 then c - 48
+  else if 97 ≤ c ∧ c ≤ 102 then c - 97 + 10
+  else if 65 ≤ c ∧ c ≤ 70 then c - 65 + 10
+  else 16
+
+def isDecimalDigit (c : Nat) : Bool := 48 ≤ c ∧ c ≤ 57
+
+/-- scanMantissa (lexer.go:554): (digits read, rest) -/
+def scanMantissa (base : Nat) (s : Str) : Str × Str :=
+  (s.takeWhile (fun c => lexDigitValue c < base), s.dropWhile (fun c => lexDigitValue c < base))
+
+/-- label `exponent:` of scanNumericLiteral (lexer.go:880); `acc` = literal text so far.
+    `none` = token.ILLEGAL -/
+def scanExponent (acc : Str) (s : Str) : Option (Str × Str) :=
+  match s with
+  | c :: t =>
+    if c = 101 ∨ c = 69 then
+      let (sg, t2) : Str × Str := match t with
+        | d :: u => if d = 45 ∨ d = 43 then ([d], u) else ([], t)
+        | [] => ([], t)
+      match t2 with
+      | d :: _ =>
+        if isDecimalDigit d then
+          let (ds, r) := scanMantissa 10 t2
+          some (acc ++ c :: sg ++ ds, r)
+        else none
+      | [] => none
+    else some (acc, s)
+  | [] => some (acc, s)
+
+/-- label `float:` (lexer.go:874) -/
+def scanFloat (acc : Str) (s : Str) : Option (Str × Str) :=
+  match s with
+  | 46 :: t => let (fs, r) := scanMantissa 10 t; scanExponent (acc ++ 46 :: fs) r
+  | _ => scanExponent acc s
+
+/-- scanNumericLiteral(false) (lexer.go:826) started at a decimal digit: (literal, rest) or ILLEGAL.
+    The trailing "identifier start or digit follows" check is applied by the caller below. -/
+def scanNumber (s : Str) : Option (Str × Str) :=
+  match s with
+  | 48 :: t =>
+    match t with
+    | c :: u =>
+      if c = 120 ∨ c = 88 then
+        match u with
+        | d :: _ => if lexDigitValue d < 16 then let (ds, r) := scanMantissa 16 u; some (48 :: c :: ds, r) else none
+        | [] => none
+      else if c = 46 then scanFloat [48] t
+      else if c = 101 ∨ c = 69 then scanExponent [48] t
+      else
+        let (ds, r) := scanMantissa 8 t
+        match r with
+        | d :: _ => if d = 56 ∨ d = 57 then none else some (48 :: ds, r)
+        | [] => some (48 :: ds, r)
+    | [] => some ([48], [])
+  | _ => let (ds, r) := scanMantissa 10 s; scanFloat ds r
+
+/-- parseNumberLiteral (lexer.go:661): `none` = "illegal numeric literal" -/
+def parseNumberLiteral (lit : Str) : Option FV :=
+  match GoStd.parseInt lit 0 with
+  | .ok i => some (ofInt i)
+  | err =>
+    match GoStd.parseFloat lit with
+    | some v => some v                       -- err == nil or ErrRange (±Inf)
+    | none =>
+      match err, lit with
+      | .range, 48 :: x :: hs =>
+        if (x = 88 ∨ x = 120) ∧ !hs.isEmpty then
+          if hs.all (fun c => lexDigitValue c < 16) then
+            some (hs.foldl (fun v c => add (mul v (ofNat 16)) (ofNat (lexDigitValue c))) zero)
+          else none
+        else none
+      | _, _ => none
+
+/-- a source text that is exactly one numeric literal token: its value; `none` otherwise
+    (ILLEGAL token, leftover text, parse error) -/
+def literalValue (s : Str) : Option FV :=
+  let tok : Option (Str × Str) := match s with
+    | 46 :: d :: _ =>
+      if lexDigitValue d < 10 then let (ds, r) := scanMantissa 10 (s.drop 1); scanExponent (46 :: ds) r else none
+    | d :: _ => if isDecimalDigit d then scanNumber s else none
+    | [] => none
+  match tok with
+  | some (lit, []) => parseNumberLiteral lit
+  | _ => none
+
+
 end OttoVerif.C06
